@@ -194,6 +194,14 @@ def blotter_coherence(c, market, placed, tag="blotter"):
     b = market.blotter
     ids = [o.id for o in placed]
     c.ob("%s.orders-once" % tag, sorted(b._orders.keys()) == sorted(ids) and len(set(ids)) == len(ids))
+    # every entry of every view is the order registered under its id (no stale or cloned object survives in a view)
+    for vname, view in (("strategy", b._strategy_orders), ("strategy-selection", b._strategy_selection_orders), ("client", b._client_orders),
+                        ("client-strategy", b._client_strategy_orders), ("trade", b._trades)):
+        for lst in list(view.values()):
+            for x in lst:
+                c.ob("%s.%s-view-entry-is-the-registered-order" % (tag, vname), b._orders.get(x.id) is x)
+    for x in b._live_orders:
+        c.ob("%s.live-list-entry-is-the-registered-order" % tag, b._orders.get(x.id) is x)
     for o in placed:
         st = o.trade.strategy
         c.ob("%s.lookup-identity" % tag, b[o.id] is o)
